@@ -96,7 +96,7 @@ def r3(rep, w):
                 if l == rl:
                     continue
                 for q in paths:
-                    if q[0] == root_key and all(tok in HANDLE_TOKENS for tok in q[1:]):
+                    if q[0] == root_key and all(tok in HANDLE_TOKENS or tok.startswith('in ') for tok in q[1:]):
                         if unrooted_managed(cr, f.local_ty(l)):
                             derived.add(l)
             key = '%s / %s' % (f.path, f.local_name(rl) if f.locals[rl].get('n') else 'temporary of ' + aname.rsplit('::', 1)[-1])
@@ -252,7 +252,7 @@ def r5(rep, w):
                 for q in paths:
                     if q[0] == root_key and managed_not_immortal(c, f.local_ty(l)):
                         # the value itself or a payload extracted from it (variant projection / try_as_*)
-                        if all(tok.startswith('as ') or tok in ('0', '*') or tok.startswith('@') for tok in q[1:]) \
+                        if all(tok.startswith('as ') or tok in ('0', '*') or tok.startswith('@') or tok.startswith('in ') for tok in q[1:]) \
                                 and not any(tok in ('@deref', '@borrow', '@borrow_mut') for tok in q[1:]):
                             derived.add(l)
             derived = {l for l in derived if managed_not_immortal(c, f.local_ty(l))}
@@ -325,7 +325,7 @@ def param_live_across_gc(w, mg, gpath, argi, depth=0):
     derived = {argi + 1}
     for l, paths in org.items():
         for q in paths:
-            if q[0] == root_key and all(tok.startswith('as ') or tok in ('0', '*') or tok.startswith('@') for tok in q[1:]) \
+            if q[0] == root_key and all(tok.startswith('as ') or tok in ('0', '*') or tok.startswith('@') or tok.startswith('in ') for tok in q[1:]) \
                     and not any(tok in ('@deref', '@borrow', '@borrow_mut') for tok in q[1:]):
                 if managed_not_immortal(g.crate, g.local_ty(l)):
                     derived.add(l)
